@@ -63,12 +63,11 @@ def check(prop, tier):
     v.notes["fuzz"] = {"runs": rep["runs"], "lines": rep["lines"], "rule_coverage": cnt}
     # operand-class vectors
     codec.run(v, prop, tier)
-    if prop == "C03":
-        precomp.run(v, prop, tier)
+    precomp.run(v, prop, tier)
     v.cov["rule"] = ("seeded programs (structured / mutated / raw bytes) that include the journal opcodes 0xe0-0xe7 with arbitrary operands and memory, TLOAD/TSTORE/MCOPY and calls of every kind "
                      "to 0x64-0x66 with arbitrary payloads, on 6 forks, join points on/off, 6 entry points, each behind recover(); one trace per run validated by FuzzTrace.tla "
                      "(no action for a panic; bookkeeping closed after every result; (reads+writes)*20 <= cost+40 for every instruction); plus every operand-class vector of "
-                     "JournalCodec.tla%s" % (" and Precompile.tla" if prop == "C03" else ""))
+                     "JournalCodec.tla and Precompile.tla (C20: calls to precompiles 1-9 and 0x64-0x66 announcing lengths 0..2^256-1, bytes allocated by the whole call <= AllocPerGas*gas + AllocSlack)")
     v.assumptions += ["TLC 1.8", "an unrecoverable Go runtime error (out of memory, stack exhaustion) kills the harness process and is reported as a machinery failure with its output",
-                      "work = state reads and writes counted by a wrapping StateDB between two callbacks of the same frame; allocation is bounded indirectly (journal opcodes cannot read beyond existing memory)"]
+                      "work = state reads and writes counted by a wrapping StateDB between two callbacks of the same frame; allocation of journal opcodes is bounded indirectly (they cannot read beyond existing memory); allocation of precompile calls is runtime.MemStats.TotalAlloc around the call in a single-threaded process"]
     return v.finish()
